@@ -2,12 +2,13 @@
 (Faults.tla / FaultsTrace.tla: fault plans over recorded call sequences;
 Corrupt.tla / CorruptTrace.tla: counter files that are corrupt at rest)."""
 import json
+import os
 import random
-import re
+import threading
 from concurrent.futures import ThreadPoolExecutor
 
 from vlib import tlaval
-from vlib.core import Infra, ndjson_text
+from vlib.core import Infra, ndjson_text, read_ndjson
 
 ERRNOS = ['ENOENT', 'EACCES', 'ENOSPC', 'EIO']
 
@@ -80,6 +81,47 @@ def hang_fn(label):
     return parts[0] if parts else '?'
 
 
+_HSEQ = [0]
+_HLOCK = threading.Lock()
+
+
+def harness(ctx, pkg, test, inp, timeout=3000):
+    """ctx.run_harness with private VERIF_IN / VERIF_OUT names, so that several
+    harness processes can run at the same time."""
+    with _HLOCK:
+        _HSEQ[0] += 1
+        n = _HSEQ[0]
+    inp_path = os.path.join(ctx.work, 'c05-in-%d.json' % n)
+    out_path = os.path.join(ctx.work, 'c05-out-%d.ndjson' % n)
+    with open(inp_path, 'w') as f:
+        json.dump(inp, f)
+    rc, out = ctx.go_test(None, pkg, test, env={'VERIF_IN': inp_path, 'VERIF_OUT': out_path}, timeout=timeout)
+    recs = read_ndjson(out_path) if os.path.exists(out_path) else []
+    if rc != 0:
+        raise Infra('harness %s %s failed (rc=%d):\n%s' % (pkg, test, rc, out[-4000:]))
+    return recs, out
+
+
+def sharded(ctx, pool, pkg, test, base, key, items, shards, timeout=3000):
+    """Run `items` (the list under base[key]) in `shards` concurrent harness processes."""
+    shards = max(1, min(shards, len(items) // 50 or 1))
+    futs = []
+    for k in range(shards):
+        inp = dict(base)
+        inp[key] = items[k::shards]
+        futs.append(pool.submit(harness, ctx, pkg, test, inp, timeout))
+    return futs
+
+
+def gather(futs):
+    recs, outs = [], []
+    for f in futs:
+        r, o = f.result()
+        recs += r
+        outs.append(o[-1500:])
+    return recs, '\n'.join(outs)
+
+
 def pcclass(pc):
     return pc.split(':')[0]
 
@@ -105,22 +147,26 @@ def run(ctx):
     ctx.inject('internal/counter', 'internal/upload', 'internal/verifh/c05')
     ctx.log(ctx.instrument('-files', 'internal/counter', 'internal/upload', 'internal/telemetry').strip())
     rng = random.Random(ctx.seed)
+    rng2 = random.Random(ctx.seed * 7919 + 1)
+    pool = ThreadPoolExecutor(max_workers=8)
     # the corruption product is enumerated by TLC while the scenarios are being recorded
-    pool = ThreadPoolExecutor(max_workers=2)
     maxdmg = ctx.pick(3, 6)
     fut_corrupt = pool.submit(ctx.tlc, 'Corrupt', cfg_text='SPECIFICATION Spec\nINVARIANT Sane\nCHECK_DEADLOCK FALSE\nCONSTANTS\n MaxDamage = %d\n' % maxdmg,
                               dump=True, workers=4, label='Corrupt (MaxDamage=%d)' % maxdmg)
-    faults_part(ctx, rng)
-    corrupt_part(ctx, rng, fut_corrupt.result())
+    fut_cases = pool.submit(lambda: corrupt_replay(ctx, rng2, fut_corrupt.result(), pool))
+    fstate = faults_replay(ctx, rng, pool)
+    faults_decide(ctx, *fstate)
+    corrupt_decide(ctx, *fut_cases.result())
     pool.shutdown()
     ctx.cov['rule'] = ('a case is one fault plan (which calls fail with which errno) replayed over one API scenario of the instrumented real packages, or one corrupt '
                        'counter file written to disk and opened + incremented by the real library; each is decided by TLC against Faults.tla / Corrupt.tla')
 
 
 # --------------------------------------------------------------------------- faults
-def faults_part(ctx, rng):
-    crecs, _, out = ctx.run_harness('./internal/counter', 'TestVerifC05Faults', inp={'scenarios': COUNTER_SCENARIOS, 'plans': [], 'budget': 20000})
-    urecs, _, out2 = ctx.run_harness('./internal/upload', 'TestVerifC05Upload', inp={'scenarios': UPLOAD_SCENARIOS, 'plans': [], 'budget': 200000})
+def faults_replay(ctx, rng, pool):
+    fc = pool.submit(harness, ctx, './internal/counter', 'TestVerifC05Faults', {'scenarios': COUNTER_SCENARIOS, 'plans': [], 'budget': 20000})
+    fu = pool.submit(harness, ctx, './internal/upload', 'TestVerifC05Upload', {'scenarios': UPLOAD_SCENARIOS, 'plans': [], 'budget': 200000})
+    (crecs, out), (urecs, out2) = fc.result(), fu.result()
     recording = {r['scn']: r for r in crecs + urecs if r.get('kind') == 'recording'}
     scns = [(s, 'counter') for s in COUNTER_SCENARIOS] + [(s, 'upload') for s in UPLOAD_SCENARIOS]
     if len(recording) != len(scns):
@@ -180,8 +226,9 @@ def faults_part(ctx, rng):
             meta[pid] = (s['name'], fam, pl, pred)
             (cplans if fam == 'counter' else uplans).append(dict(id=pid, scn=s['name'], faults=[dict(idx=i, errno=e) for (i, e) in pl]))
     ctx.log('fault plans to replay: counter %d, upload %d' % (len(cplans), len(uplans)))
-    crecs, _, out = ctx.run_harness('./internal/counter', 'TestVerifC05Faults', inp={'scenarios': COUNTER_SCENARIOS, 'plans': cplans, 'budget': 20000}, timeout=2400)
-    urecs, _, out2 = ctx.run_harness('./internal/upload', 'TestVerifC05Upload', inp={'scenarios': UPLOAD_SCENARIOS, 'plans': uplans, 'budget': 200000}, timeout=3000)
+    fc = sharded(ctx, pool, './internal/counter', 'TestVerifC05Faults', {'scenarios': COUNTER_SCENARIOS, 'budget': 20000}, 'plans', cplans, 2)
+    fu = sharded(ctx, pool, './internal/upload', 'TestVerifC05Upload', {'scenarios': UPLOAD_SCENARIOS, 'budget': 200000}, 'plans', uplans, 3)
+    (crecs, out), (urecs, out2) = gather(fc), gather(fu)
     cases = {r['id']: r for r in crecs + urecs if r.get('kind') == 'case'}
     if len(cases) != len(meta):
         raise Infra('C05: %d results for %d fault plans\n%s\n%s' % (len(cases), len(meta), out[-1500:], out2[-1500:]))
@@ -190,6 +237,10 @@ def faults_part(ctx, rng):
     ctx.cov['faults_fired'] = sum(len(c['fired']) for c in cases.values())
     ctx.cov['panics_recovered_by_Run'] = sum(s.get('recovered', 0) for c in cases.values() for s in c['steps'])
 
+    return cases, meta, scns, index, rec_text, mc
+
+
+def faults_decide(ctx, cases, meta, scns, index, rec_text, mc):
     # ---- code -> model: TLC decides every observed step ----------------------------
     obs, ids = [], []
     for pid in sorted(cases):
@@ -198,7 +249,7 @@ def faults_part(ctx, rng):
         steps = []
         for s in c['steps']:
             if fam == 'counter':
-                steps.append({k: s[k] for k in ('op', 'n', 'ret', 'parked', 'cur', 'today', 'others', 'files', 'dP', 'dE', 'pe', 'rv', 'pv', 'rerr')})
+                steps.append({k: s[k] for k in ('op', 'n', 'ret', 'parked', 'cur', 'today', 'dbl', 'others', 'files', 'dP', 'dE', 'pe', 'rv', 'pv', 'rerr')})
             else:
                 steps.append({k: s[k] for k in ('op', 'ret', 'orphans', 'touched')})
         obs.append(dict(id=pid, scn=index[name], plan=[[i, e] for (i, e) in pl],
@@ -259,7 +310,7 @@ DIMS = ('hdr', 'trunc', 'limit', 'headE', 'headN', 'nlenC', 'nextC', 'nextE')
 UNDAMAGED = dict(hdr='ok', trunc='none', limit='ok', headE='ok', headN='zero', nlenC='ok', nextC='ok', nextE='ok')
 
 
-def corrupt_part(ctx, rng, r):
+def corrupt_replay(ctx, rng, r, pool):
     if not r.ok:
         raise Infra('Corrupt.tla: spec-level sanity failed: %s %s\n%s' % (r.error, r.error_name, r.out[-3000:]))
     vectors = [(st['file'], st['op'], st['exp']) for st in tlaval.read_dump(r.dump)]
@@ -292,17 +343,21 @@ def corrupt_part(ctx, rng, r):
         c.update(id=len(cases) + 1, op=['addE', 'addN', 'addM'][k % 3], rand=rng.randrange(1, 1 << 40))
         cases.append(c)
     ctx.log('corrupt files to replay: %d enumerated + %d random' % (nenum, len(cases) - nenum))
-    recs, _, out = ctx.run_harness('./internal/counter', 'TestVerifC05Corrupt', inp={'cases': cases, 'budget': 3000}, timeout=3000)
+    recs, out = gather(sharded(ctx, pool, './internal/counter', 'TestVerifC05Corrupt', {'budget': 3000}, 'cases', cases, ctx.pick(2, 4)))
     res = {x['id']: x for x in recs if x.get('kind') == 'case'}
     if len(res) != len(cases):
         raise Infra('C05: %d results for %d corrupt files\n%s' % (len(res), len(cases), out[-2000:]))
+    return cases, res, nenum
+
+
+def corrupt_decide(ctx, cases, res, nenum):
     ctx.cov['corrupt_files_replayed'] = len(cases)
     ctx.cov['evaluations'] += len(cases)
     lines = []
     for c in cases:
         o = res[c['id']]
         lines.append(dict(free=bool(c['rand']), file={d: c[d] for d in DIMS}, op=c['op'],
-                          o=dict(open=o['open'], ret=o['ret'], mode=o['mode'], others=o['others'], untouched=o['untouched'])))
+                          o=dict(open=o['open'], ret=o['ret'], mode=o['mode'], others=o['others'], untouched=o['untouched'], dbl=o['dbl'])))
     bad = []
     chunk = 40000
     jobs = [(('CorruptTrace',), dict(files={'c05corrupt.ndjson': ndjson_text(lines[i:i + chunk])}, workers=1, label='CorruptTrace[%d]' % (i // chunk), count=False, timeout=2400))
@@ -311,7 +366,7 @@ def corrupt_part(ctx, rng, r):
         b = printed(r.out, 'C05CBAD')
         if b is None or not r.ok:
             raise Infra('CorruptTrace: no verdict (%s)\n%s' % (r.error, r.out[-3000:]))
-        bad += [(k * chunk + x[0], x[1], x[2]) for x in b]
+        bad += [(k * chunk + x[0], x[1], x[2], x[3]) for x in b]
     ctx.cov['traces_validated_against_impl'] += len(cases) - len({b[0] for b in bad})
     outcome = {}
     for c in cases:
@@ -319,12 +374,20 @@ def corrupt_part(ctx, rng, r):
         key = '%s/%s/%s' % (o['open'], o['ret'], o['mode'])
         outcome[key] = outcome.get(key, 0) + 1
     ctx.cov['corrupt_outcomes'] = outcome
-    for (cid, verdict, lookup) in sorted(bad):
+    ndiv = 0
+    for (cid, verdict, lookup, want) in sorted(bad):
         c, o = cases[cid - 1], res[cid]
         free = bool(c['rand'])
         look = o.get('chain', '-') if free else lookup
         dmg = o.get('damage') if free else {d: c[d] for d in DIMS if c[d] != UNDAMAGED[d]}
         lim = o.get('limClass', '-') if free else c['limit']
+        if verdict in ('open-class', 'mode-class', 'parked-file-written'):
+            # the documented class differs, but nothing the property forbids happened
+            ndiv += 1
+            if ndiv <= 5:
+                ctx.warn('MODEL-DIVERGENCE corrupt file %s, %s: %s (expected mode %s; observed open=%s mode=%s untouched=%s)' % (
+                    json.dumps(dmg), c['op'], verdict, want, o['open'], o['mode'], o['untouched']))
+            continue
         if verdict in ('hang', 'blocked'):
             sig = 'C05:corrupt:%s:%s:lookup=%s' % (verdict, hang_fn(o.get('where')), look)
         elif verdict in ('panic', 'memfault'):
@@ -332,11 +395,13 @@ def corrupt_part(ctx, rng, r):
         elif verdict == 'other-counter-changed':
             sig = 'C05:corrupt:other-counter-changed:lookup=%s:limit=%s' % (look, lim)
         else:
-            sig = 'C05:corrupt:%s:%s:%s' % (verdict, c['op'], 'random' if free else '+'.join('%s=%s' % (d, c[d]) for d in DIMS if c[d] != UNDAMAGED[d]))
+            sig = 'C05:corrupt:%s:%s' % (verdict, c['op'])
         ctx.violation(sig, {'case': c, 'damage': dmg, 'observed': o},
                       'corrupt file at rest (%s), then open + %s: %s%s; observed open=%s ret=%s mode=%s dP=%s dE=%s %s %s' % (
                           json.dumps(dmg), c['op'], verdict, (' (lookup class %s)' % look), o['open'], o['ret'], o['mode'], o.get('dP'), o.get('dE'),
                           ('lost: ' + o['lost']) if o.get('lost') else '', (o.get('where', '') + ' ' + o.get('text', '')).strip()))
+    ctx.cov['divergences'] += ndiv
+    ctx.cov['corrupt_class_divergences'] = ndiv
     pick = [c for c in cases[:nenum] if sum(1 for d in DIMS if c[d] != UNDAMAGED[d]) == 2]
     if pick:
         c = pick[len(pick) // 2]
